@@ -121,26 +121,6 @@ def is_tail_known_fn(inp):
     return False
 
 
-_FUNC = re.compile(r"\( func (\S+) \[ ([^\]]*)\]")
-
-
-def is_typed_tail_eager(src, orc, impl, model):
-    """a typed func declaration NAME with at least one # formal whose body calls NAME (the self tail
-    call of a typed func is compiled with no lazy formals known: FuncBuilder), the implementation
-    deviates from the reference evaluator, and the reference evaluator itself satisfies the oracle"""
-    from .refsem import same_obs
-    if same_obs(impl, model)[0] or (orc and oracle_check(orc, model) is not None):
-        return False
-    for m in _FUNC.finditer(src):
-        name, ps = m.group(1), m.group(2)
-        if "#" not in ps:
-            continue
-        body = src[m.end():_span_end(src, m.start())]
-        if ("( %s " % name) in body:
-            return True
-    return False
-
-
 def is_reentrant_force(inp, impl, model):
     """the faithful model shows the same duplicate evaluation, and the program stores a thunk in an
     array and forces what it reads back from an array"""
@@ -160,7 +140,7 @@ def main(argv):
     ])
     c.assumptions += [
         "Model/RefSemLazy.v restricted to programs without lazy formals is RefSem.v (copied, restructured around liftC/on_result); not proved, covered by the correspondence run on the random stream",
-        "the self tail call route (generator.go:GenerateCallBySymbol / GenerateCallArgsForFunction / PushLazyArgInstr) is modelled APART from the evaluator (RefSemLazy.v: tail_prep_args, self_tail_call, call_by_symbol) and proved to hand the body what the ordinary call route does when the function known under the name is the function being run (self_tail_route_is_call_route); that the generator's known function is that function is not proved (findings tail-known-fn, typed-tail-eager are its failures) and is tied by the correspondence run of the selftail / redef-selftail / typed-selftail grid routes and the random stream",
+        "the self tail call route (generator.go:GenerateCallBySymbol / GenerateCallArgsForFunction / PushLazyArgInstr) is modelled APART from the evaluator (RefSemLazy.v: tail_prep_args, self_tail_call, call_by_symbol) and proved to hand the body what the ordinary call route does when the function known under the name is the function being run (self_tail_route_is_call_route); that the generator's known function is that function is not proved (the finding tail-known-fn and the repaired typed-tail-eager, fix 8d8e16d, are its failures) and is tied by the correspondence run of the selftail / redef-selftail / typed-selftail grid routes and the random stream",
     ]
     rc, out, model_exe = common.build_ocaml("C16")
     if rc != 0:
@@ -304,8 +284,6 @@ def main(argv):
             continue
         if is_reentrant_force(r["input"], r["implementation"], r["model"]) and c.known_finding("reentrant-force", r["source"]):
             continue
-        if is_typed_tail_eager(r["source"], r["oracle"], r["implementation"], r["model"]) and c.known_finding("typed-tail-eager", r["source"]):
-            continue
         key = r["why"][:40]
         violations += 1
         if key in seen or len(seen) >= 4:
@@ -326,8 +304,6 @@ def main(argv):
                 continue
             r = dict(r, **{k: fr[k] for k in ("source", "input", "implementation", "model", "failat", "minimised") if k in fr})
         if is_tail_known_fn(r["input"]) and c.known_finding("tail-known-fn", r["source"]):
-            continue
-        if is_typed_tail_eager(r["source"], None, r["implementation"], r["model"]) and c.known_finding("typed-tail-eager", r["source"]):
             continue
         if "#" in r["source"]:
             lazy_viol += 1
